@@ -463,3 +463,104 @@ pub(crate) fn run_c07(_replay: Option<&str>) -> Report {
     }
     rep
 }
+
+/// C18, handler level: the WatchEvent API with `init` set, one table filter kind at a time. What the
+/// watcher is handed - snapshot first, live events afterwards - is the view it asked for: the
+/// pre-policy Adj-RIB-In (every received route, as received) or the post-policy one (accepted
+/// routes only).
+pub(crate) fn run_c18api(_replay: Option<&str>) -> Report {
+    use api::go_bgp_service_server::GoBgpService;
+    use futures::StreamExt;
+    let mut rep = Report::new("C18", "hd-c18api");
+    rep.rule = "WatchEvent through the real gRPC handler, one table filter kind (ADJIN / POST_POLICY / unspecified) with init = true, against a RIB holding a route the import policy accepts and one it rejects; then one more of each announced live and one withdrawn; the prefixes the watcher has been handed (reach minus withdraw) must be exactly those of the view it asked for".into();
+    let rt = runtime();
+    let net = |k: u8| packet::Nlri::V4(packet::bgp::Ipv4Net { addr: Ipv4Addr::new(10, 40 + k, 0, 0), mask: 24 });
+    // kinds: (name, filter type, post-policy view?)
+    let kinds = [("adjin", api::watch_event_request::table::filter::Type::Adjin, false), ("post-policy", api::watch_event_request::table::filter::Type::PostPolicy, true), ("unspecified", api::watch_event_request::table::filter::Type::Unspecified, false)];
+    for (kname, ktype, post) in kinds {
+        let case = format!("watch#{kname}");
+        let r: Result<Option<String>, String> = rt.block_on(async {
+            let d = Daemon::new(2);
+            // import policy: reject odd-numbered probe prefixes
+            let mut pt = table::PolicyTable::new();
+            pt.add_defined_set(table::DefinedSetConfig::Prefix { name: "R".into(), prefixes: [1u8, 3].iter().map(|k| table::PrefixConfig { ip_prefix: format!("{}", net(*k)), mask_length_min: 24, mask_length_max: 24 }).collect() }).map_err(|e| format!("{e:?}"))?;
+            pt.add_statement("s", vec![table::ConditionConfig::PrefixSet("R".into(), table::MatchOption::Any)], Some(table::Disposition::Reject), table::Actions::default()).map_err(|e| format!("{e:?}"))?;
+            pt.add_policy("p", vec!["s".into()]).map_err(|e| format!("{e:?}"))?;
+            d.tables.import_policy.store(Some(pt.build_assignment(None, "global", table::PolicyDirection::Import, table::Disposition::Accept, vec!["p".into()]).map_err(|e| format!("{e:?}"))?));
+            let src = Arc::new(table::Source::new(IpAddr::V4(Ipv4Addr::new(10, 9, 0, 1)), IpAddr::V4(Ipv4Addr::new(10, 9, 0, 254)), 65009, 65000, Ipv4Addr::new(10, 9, 0, 1), table::PeerRole::Ebgp));
+            let attrs = || Arc::new(vec![packet::Attribute::new_with_value(packet::Attribute::ORIGIN, 0).unwrap(), packet::Attribute::new_with_bin(packet::Attribute::AS_PATH, vec![2, 1, 0, 0, 0xfd, 0xf1]).unwrap()]);
+            let ins = |k: u8| {
+                d.tables.insert_route(src.clone(), Family::IPV4, packet::PathNlri::new(net(k)), Some(bgp::Nexthop::V4(Ipv4Addr::new(192, 0, 2, 1))), attrs(), None, 0);
+            };
+            ins(0); // accepted
+            ins(1); // rejected by the import policy (stored, filtered)
+            let svc = super::super::grpc::GrpcService::new(Arc::new(tokio::sync::Notify::new()), d.active_tx.clone(), d.global.clone(), d.tables.clone());
+            let req = api::WatchEventRequest { table: Some(api::watch_event_request::Table { filters: vec![api::watch_event_request::table::Filter { r#type: ktype as i32, init: true, ..Default::default() }] }), ..Default::default() };
+            let mut stream = svc.watch_event(tonic::Request::new(req)).await.map_err(|e| format!("watch_event: {e}"))?.into_inner();
+            let mut view: std::collections::BTreeSet<u8> = std::collections::BTreeSet::new();
+            let mut drain = |view: &mut std::collections::BTreeSet<u8>, stream: &mut <super::super::grpc::GrpcService as GoBgpService>::WatchEventStream| {
+                let v: *mut std::collections::BTreeSet<u8> = view;
+                let s: *mut <super::super::grpc::GrpcService as GoBgpService>::WatchEventStream = stream;
+                async move {
+                    // quiescence: nothing for 300 ms
+                    loop {
+                        // SAFETY: single-threaded runtime, the borrows do not outlive this future
+                        let (view, stream) = unsafe { (&mut *v, &mut *s) };
+                        match tokio::time::timeout(Duration::from_millis(300), stream.next()).await {
+                            Ok(Some(Ok(resp))) => {
+                                if let Some(api::watch_event_response::Event::Table(t)) = resp.event {
+                                    for p in t.paths {
+                                        let txt = format!("{:?}", p.nlri);
+                                        for k in 0..4u8 {
+                                            if txt.contains(&format!("10.{}.0.0", 40 + k)) {
+                                                // (the handler reports a withdrawal as a path without attributes; it sets
+                                                // is_withdraw only on End-of-RIB markers)
+                                                if p.is_withdraw || p.pattrs.is_empty() {
+                                                    view.remove(&k);
+                                                } else {
+                                                    view.insert(k);
+                                                }
+                                            }
+                                        }
+                                    }
+                                }
+                            }
+                            Ok(Some(Err(e))) => return Err(format!("stream error: {e}")),
+                            Ok(None) => return Err("the watch stream ended".to_string()),
+                            Err(_) => return Ok(()),
+                        }
+                    }
+                }
+            };
+            drain(&mut view, &mut stream).await?;
+            let want0: std::collections::BTreeSet<u8> = if post { [0u8].into_iter().collect() } else { [0u8, 1].into_iter().collect() };
+            if view != want0 {
+                return Ok(Some(format!("snapshot: after the initial snapshot the watcher holds prefixes {:?} (0 = accepted route, 1 = route rejected by import policy), the {kname} view is {:?}", view, want0)));
+            }
+            ins(2); // accepted, live
+            ins(3); // rejected, live
+            d.tables.remove_route(src.clone(), Family::IPV4, packet::PathNlri::new(net(0)), None, 0);
+            drain(&mut view, &mut stream).await?;
+            let want1: std::collections::BTreeSet<u8> = if post { [2u8].into_iter().collect() } else { [1u8, 2, 3].into_iter().collect() };
+            if view != want1 {
+                return Ok(Some(format!("live: after two live announcements (2 accepted, 3 rejected) and the withdrawal of 0 the watcher holds {:?}, the {kname} view is {:?}", view, want1)));
+            }
+            Ok(None)
+        });
+        rep.evaluations += 1;
+        match r {
+            Err(e) => {
+                rep.machinery_error = Some(format!("c18 watch_event ({case}): {e}"));
+                return rep;
+            }
+            Ok(None) => {}
+            Ok(Some(msg)) => {
+                let clause = msg.split(':').next().unwrap_or("").to_string();
+                rep.violation(Violation { sig: format!("C18/api/watch/{kname}/{clause}"), what: msg, case });
+            }
+        }
+    }
+    rep.exhaustive = true;
+    rep.machinery_error = take_machinery();
+    rep
+}
